@@ -199,6 +199,51 @@ pub fn drive_c15(out: &mut dyn std::io::Write, seed: u64, thorough: bool) {
             }
         }
     }
+    // equality: pairs differing in TWO words by the same XOR delta (differences must not cancel), and complemented keys
+    {
+        let key = rng.bytes(32);
+        let c0 = rng.next();
+        let s0 = rng.next();
+        let pairs: Vec<(usize, usize)> = if thorough {
+            (0..12).flat_map(|a| ((a + 1)..12).map(move |b| (a, b))).collect()
+        } else {
+            vec![(0, 1), (0, 7), (3, 4), (2, 10), (7, 11), (10, 11), (5, 10), (8, 9), (0, 9), (9, 11), (1, 8), (6, 6)]
+        };
+        for (pi, (wa, wb)) in pairs.iter().enumerate() {
+            let delta: u32 = if pi % 3 == 0 { 0xffff_ffff } else { 1u32 << (rng.below(32)) };
+            let mut okey = key.clone();
+            let mut oc = c0;
+            let mut os = s0;
+            for w in [*wa, *wb] {
+                match w {
+                    0..=7 => {
+                        for j in 0..4 {
+                            okey[4 * w + j] ^= (delta >> (8 * j)) as u8;
+                        }
+                    }
+                    8 => oc ^= delta as u64,
+                    9 => oc ^= (delta as u64) << 32,
+                    10 => os ^= delta as u64,
+                    _ => os ^= (delta as u64) << 32,
+                }
+                if wa == wb {
+                    break;
+                }
+            }
+            if let Some(mut g) = G::new(out, &key, &[0u8; 8], "eq2") {
+                g.setp(out, 0, c0);
+                g.setp(out, 1, s0);
+                g.eq(out, &okey, &[0u8; 12], oc, os);
+            }
+        }
+        // all-zero key against all-ones key, same everything else
+        if let Some(mut g) = G::new(out, &[0u8; 32], &[0u8; 8], "eq2") {
+            g.eq(out, &[0xffu8; 32], &[0u8; 8], 0, 0);
+            g.eq(out, &[0u8; 32], &[0u8; 8], 0, 0x0000_0003_0000_0003);
+            g.setp(out, 1, 0x0000_0001_0000_0001);
+            g.eq(out, &[0u8; 32], &[0u8; 8], 0, 0x0000_0003_0000_0003);
+        }
+    }
     // equality: pairs differing in exactly one bit of one of the 12 key/nonce/counter words (and equal pairs)
     let words = if thorough { 3 } else { 1 };
     for rep in 0..words {
